@@ -514,7 +514,28 @@ func c12Gen(c *Ctx) {
 		in = append(in, 7, 0, 0, 0, 10, 0, 0, 0)
 		t.Try("seq-random", in, len(kinds) >= 2)
 	})
-	// ---- concurrent histories
+	// ---- race detector on every method pair
+	var pairs [][]int64
+	for a := int64(0); a < 16; a++ {
+		for b := a; b < 16; b++ {
+			pairs = append(pairs, []int64{2, a, b, int64(c.N(1500, 20000))})
+		}
+	}
+	c.Each(len(pairs), func(i int, t *T) {
+		if tooMany() {
+			return
+		}
+		t.Try("race-pair", pairs[i], true)
+	})
+	if c12RaceErr != "" {
+		c.Note("race binary: " + c12RaceErr)
+	}
+	// ---- concurrent histories (in this process: skipped when the race run already failed — a racy map can kill the runtime)
+	raceFailed := func() bool { c.mu.Lock(); defer c.mu.Unlock(); return c.nfail > 0 }
+	if raceFailed() {
+		c.Note("concurrent histories skipped: earlier failures (a data race on a Go map may abort the process)")
+		return
+	}
 	c.Each(c.N(6000, 120000), func(i int, t *T) {
 		if tooMany() {
 			return
@@ -548,29 +569,15 @@ func c12Gen(c *Ctx) {
 		t.C.Count("history", fmt.Sprintf("threads=%d overlapped=%v", T, overlapped))
 		t.Try("history", in, overlapped)
 	})
-	// ---- race detector on every method pair
-	var pairs [][]int64
-	for a := int64(0); a < 16; a++ {
-		for b := a; b < 16; b++ {
-			pairs = append(pairs, []int64{2, a, b, int64(c.N(1500, 20000))})
-		}
-	}
-	c.Each(len(pairs), func(i int, t *T) {
-		if tooMany() {
-			return
-		}
-		t.Try("race-pair", pairs[i], true)
-	})
-	if c12RaceErr != "" {
-		c.Note("race binary: " + c12RaceErr)
-	}
 }
 
 func c12Describe(in []int64) string {
 	if len(in) < 2 {
 		return "?"
 	}
-	op := func(o []int64) string { return fmt.Sprintf("%s(%d,%d,%d)", c12Names[((o[0]%16)+16)%16], o[1], o[2], o[3]) }
+	op := func(o []int64) string {
+		return fmt.Sprintf("%s(%d,%d,%d)", c12Names[((o[0]%16)+16)%16], o[1], o[2], o[3])
+	}
 	switch in[0] {
 	case 0:
 		s := fmt.Sprintf("NewSafeKV(%d):", in[1])
@@ -591,7 +598,7 @@ func c12Describe(in []int64) string {
 		return s
 	case 2:
 		if len(in) == 4 {
-			return fmt.Sprintf("go test -race: 2+2 goroutines calling %s and %s %d times each on one SafeKV (impl output 1 = DATA RACE reported, 2 = runtime died)",
+			return fmt.Sprintf("go test -race: 2+2 goroutines calling %s and %s %d times each on one SafeKV, each goroutine also doing a Set every 64 iterations (impl output 1 = DATA RACE reported, 2 = runtime died)",
 				c12Names[((in[1]%16)+16)%16], c12Names[((in[2]%16)+16)%16], in[3])
 		}
 	}
